@@ -472,7 +472,9 @@ func c13(r *core.Run) {
 	r.Rule("D1", "iteration direction: when the iterator options' Reverse can be true, the key passed to Seek is not the very value passed to ValidForPrefix", 1)
 	r.Rule("B1", "before-values are the stored values (shared with C11.K2): the value cached in a store transaction is dead or refreshed by every mutation; index deltas are computed from the before-value a mutation reports, so a stale one deletes the wrong entry and orphans the right one", 1)
 	r.Rule("W1", "window guards: limit==0 returns an empty result before the database is touched; a negative limit is replaced by max-int", 2)
+	r.Rule("K4", "keys handed to a transaction are not written again: BadgerDB keeps the key slice of a pending Set / Delete until commit, so a []byte passed as key to a transaction write is never afterwards passed to a parameter through which the callee may write (a key builder reusing one scratch buffer for the delete key and the set key turns the pending delete into a delete of the new key)", 2)
 
+	c13KeyPrivacy(r, rel)
 	// K1
 	iro := resolveIdxRoles(p, rel)
 	gk, gq := iro.getKey, iro.getQuery
@@ -1605,7 +1607,9 @@ func resolveIdxRoles(p *core.Prog, rel string) idxRoles {
 				n++
 			}
 		}
-		if n == 2 && sg.Params().Len() == 2 {
+		// the entry-key builder takes the id and the index value (possibly more, e.g. a scratch
+		// buffer), the query-prefix builder the prefix only
+		if n >= 2 && (ro.getKey == nil || sg.Params().Len() < ro.getKey.Signature.Params().Len()) {
 			ro.getKey = m
 		}
 		if n == 1 && sg.Params().Len() == 1 {
@@ -1674,4 +1678,122 @@ func listenerFieldOf(p *core.Prog, rel, tname, setter string) core.Field {
 		}
 	}
 	return fld
+}
+
+// mayWriteParam: fn may write through its i-th parameter (a byte slice): an
+// element store, a copy into it, an append onto it, or handing it to a module
+// function that may.
+func mayWriteParam(fn *ssa.Function, i int, depth int) bool {
+	if fn == nil || len(fn.Blocks) == 0 || i >= len(fn.Params) || depth > 3 {
+		return false
+	}
+	der := map[ssa.Value]bool{fn.Params[i]: true}
+	for changed := true; changed; {
+		changed = false
+		for _, b := range fn.Blocks {
+			for _, in := range b.Instrs {
+				v, ok := in.(ssa.Value)
+				if !ok || der[v] {
+					continue
+				}
+				switch x := in.(type) {
+				case *ssa.Slice:
+					if der[x.X] {
+						der[v], changed = true, true
+					}
+				case *ssa.Phi:
+					for _, e := range x.Edges {
+						if der[e] {
+							der[v], changed = true, true
+						}
+					}
+				case *ssa.ChangeType:
+					if der[x.X] {
+						der[v], changed = true, true
+					}
+				}
+			}
+		}
+	}
+	for _, b := range fn.Blocks {
+		for _, in := range b.Instrs {
+			switch x := in.(type) {
+			case *ssa.Store:
+				if ia, ok := x.Addr.(*ssa.IndexAddr); ok && der[ia.X] {
+					return true
+				}
+			case *ssa.Call:
+				switch core.CalleeName(x) {
+				case "builtin:copy":
+					if der[x.Call.Args[0]] {
+						return true
+					}
+				case "builtin:append":
+					if der[x.Call.Args[0]] {
+						return true
+					}
+				default:
+					if cal := x.Common().StaticCallee(); cal != nil && cal.Pkg == fn.Pkg {
+						for j, a := range x.Common().Args {
+							if der[a] && mayWriteParam(cal, j, depth+1) {
+								return true
+							}
+						}
+					}
+				}
+			}
+		}
+	}
+	return false
+}
+
+// c13KeyPrivacy is rule K4.
+func c13KeyPrivacy(r *core.Run, rel string) {
+	p := r.P
+	n := 0
+	for _, fn := range p.FuncsOfPkg(rel) {
+		for _, w := range core.Calls(fn) {
+			if !isTxnWrite(w) || len(w.Common().Args) < 2 {
+				continue
+			}
+			key := w.Common().Args[1]
+			if !isByteSlice(key.Type()) {
+				continue // SetEntry(&Entry{...}): the entry's key is judged where it is built
+			}
+			n++
+			// values that are the same slice as the key: the key and the phis it flows into
+			alias := map[ssa.Value]bool{key: true}
+			for changed := true; changed; {
+				changed = false
+				for _, b := range fn.Blocks {
+					for _, in := range b.Instrs {
+						if phi, ok := in.(*ssa.Phi); ok && !alias[phi] {
+							for _, e := range phi.Edges {
+								if alias[e] {
+									alias[phi], changed = true, true
+								}
+							}
+						}
+					}
+				}
+			}
+			bad := ""
+			for _, c := range core.Calls(fn) {
+				if c == w || !(core.Reaches(w, c) || (c.Block() == w.Block() && core.Dominates(w, c))) {
+					continue
+				}
+				cal := c.Common().StaticCallee()
+				if cal == nil || cal.Pkg != fn.Pkg {
+					continue
+				}
+				for j, a := range c.Common().Args {
+					if alias[a] && mayWriteParam(cal, j, 0) {
+						bad = core.FuncName(cal) + " at " + p.InstrPos(c)
+					}
+				}
+			}
+			r.Check(bad == "", "K4", core.FuncName(fn), "txn-key-not-rewritten:"+w.Common().StaticCallee().Name(), p.InstrPos(w), "the key slice handed to the transaction is not passed on as a writable buffer", "the key handed to the pending transaction write is afterwards passed to "+bad+", which may write into it: the pending write then refers to the new bytes (an index entry that should be deleted stays, or the new one is deleted)")
+		}
+	}
+	r.Analysed["txn_writes_with_slice_key"] = n
 }
